@@ -94,7 +94,7 @@ def main():
     for nm in sorted(exp["unit_by_name"]):
         u_ = ["u", nm]
         deep.append(("named-canonical", [u_, ["mul", u_, one_], ["div", u_, one_], ["pow", u_, 1], ["root", ["pow", u_, 2], 2], ["div", ["mul", u_, ["u", "meter"]], ["u", "meter"]]]))
-    if c.tier == "quick": deep = c.rng.sample(deep, min(len(deep), 160))
+    if c.tier == "quick": deep = [d_ for d_ in deep if d_[0] == "named-canonical"] + c.rng.sample([d_ for d_ in deep if d_[0] != "named-canonical"], 60)
     for law, members in deep:
         order = list(range(len(members)))
         hists.append([["eval", m_] for m_ in members]); meta.append((law, 0, order, members))
